@@ -261,14 +261,33 @@ func (r *LogValueRef) getOffsetDataValue(log *types.Log) []byte {
 	//		- reading the `value` from `data[internal_offset+WORD:internal_offset+WORD+value_length]`
 	//
 	dataOffset := r.Offset - 4
+	dataLen := uint64(len(log.Data))
 
 	offsetStartByte := dataOffset * Word
 
+	// Log data is untrusted: the offset word, the length word and the length itself may point
+	// anywhere. A reference that does not resolve inside the log data has no value.
+	if offsetStartByte > dataLen || dataLen-offsetStartByte < Word {
+		return nil
+	}
 	x := log.Data[offsetStartByte : offsetStartByte+Word]
 
-	lengthByteOffset := new(big.Int).SetBytes(x).Uint64()
+	lengthByteOffsetInt := new(big.Int).SetBytes(x)
+	if !lengthByteOffsetInt.IsUint64() {
+		return nil
+	}
+	lengthByteOffset := lengthByteOffsetInt.Uint64()
+	if lengthByteOffset > dataLen || dataLen-lengthByteOffset < Word {
+		return nil
+	}
 	y := log.Data[lengthByteOffset : lengthByteOffset+Word]
-	length := new(big.Int).SetBytes(y).Uint64()
+	lengthInt := new(big.Int).SetBytes(y)
+	// A value cannot be longer than the data that contains it. Rejecting larger lengths also
+	// bounds the allocation below by the size of the log.
+	if !lengthInt.IsUint64() || lengthInt.Uint64() > dataLen {
+		return nil
+	}
+	length := lengthInt.Uint64()
 	value := make([]byte, length)
 	startByte := lengthByteOffset + Word
 	endByte := startByte + length
